@@ -1,6 +1,7 @@
 package main
 
 import (
+	"bytes"
 	"context"
 	"errors"
 	"fmt"
@@ -99,6 +100,12 @@ type runOpts struct {
 	sortKey *order.SortKey      // declared order of the input
 	mutate  func(dag.Seq) error // applied to the optimized DAG before it is built
 	batch   int                 // rows per input batch (0 = all in one)
+	// consumer: "" / "prompt" copies each output batch as it arrives; "hold"
+	// keeps batch N referenced while pulling batch N+1 and only then reads
+	// it (values copied lazily), comparing it with a deep copy taken when it
+	// arrived; "slow" waits a few milliseconds before reading each batch.
+	consumer string
+	changed  *[]string // out: descriptions of emitted batches whose content changed afterwards
 }
 
 func sortKeyOf(path string, desc bool) *order.SortKey {
@@ -177,18 +184,39 @@ func runQuery(src string, zctx *zed.Context, rows []zed.Value, ro runOpts) (out 
 				return err
 			}
 			p := job.Puller()
+			var held *heldBatch
+			nbatch := 0
 			for {
 				b, err := p.Pull(false)
 				if err != nil {
 					return err
 				}
 				if b == nil {
+					if held != nil {
+						r.out = held.release(r.out, ro.changed)
+					}
 					return nil
 				}
-				for _, v := range b.Values() {
-					r.out = append(r.out, v.Copy())
+				switch ro.consumer {
+				case "hold":
+					h := &heldBatch{b: b, n: nbatch}
+					for _, v := range b.Values() {
+						h.snap = append(h.snap, v.Copy())
+					}
+					if held != nil {
+						r.out = held.release(r.out, ro.changed)
+					}
+					held = h
+				case "slow":
+					time.Sleep(3 * time.Millisecond)
+					fallthrough
+				default:
+					for _, v := range b.Values() {
+						r.out = append(r.out, v.Copy())
+					}
+					b.Unref()
 				}
-				b.Unref()
+				nbatch++
 			}
 		})
 		ch <- r
@@ -199,6 +227,35 @@ func runQuery(src string, zctx *zed.Context, rows []zed.Value, ro runOpts) (out 
 	case <-time.After(120 * time.Second):
 		return nil, errors.New("HANG: query did not finish in 120s")
 	}
+}
+
+// heldBatch is an output batch a consumer still references while the next one
+// is being produced (legal: a batch belongs to its holder until Unref).
+type heldBatch struct {
+	b    zbuf.Batch
+	n    int
+	snap []zed.Value // deep copy taken on arrival
+}
+
+// release reads the held batch now (lazily copied values go to the result),
+// compares it with the snapshot taken on arrival and drops the reference.
+func (h *heldBatch) release(out []zed.Value, changed *[]string) []zed.Value {
+	vals := h.b.Values()
+	diff := ""
+	if len(vals) != len(h.snap) {
+		diff = fmt.Sprintf("output batch %d had %d values when it arrived and has %d after the next Pull", h.n, len(h.snap), len(vals))
+	}
+	for i, v := range vals {
+		if diff == "" && i < len(h.snap) && (v.Type() != h.snap[i].Type() || !bytes.Equal(v.Bytes(), h.snap[i].Bytes())) {
+			diff = fmt.Sprintf("output batch %d, value %d was %s when it arrived and is %s after the next Pull", h.n, i, zson.FormatValue(h.snap[i]), zson.FormatValue(v))
+		}
+		out = append(out, v.Copy())
+	}
+	if diff != "" && changed != nil {
+		*changed = append(*changed, diff)
+	}
+	h.b.Unref()
+	return out
 }
 
 // walkOps visits every operator of a DAG.
